@@ -154,6 +154,8 @@ class Acc(object):
         for k, v in o.extra.items():
             if isinstance(v, (int, float)) and isinstance(self.extra.get(k, 0), (int, float)):
                 self.extra[k] = self.extra.get(k, 0) + v
+            elif isinstance(v, list) and isinstance(self.extra.get(k, []), list):
+                self.extra[k] = (self.extra.get(k, []) + v)[:20]
             else:
                 self.extra[k] = v
 
@@ -193,9 +195,13 @@ def run_case(prop, case, acc, keep_sample=True):
             if acc.extra["watchdog_expiries"] >= 3:
                 raise _Abort()
             return res
-        acc.harness_errors.append(("watchdog", canon(case)[:3000]))
+        # a time budget that was hit says nothing about the property: the case is counted as inconclusive and kept in
+        # the evidence; only when it keeps happening in one worker is the run itself declared broken
+        acc.excluded["inconclusive:case-time-budget"] += 1
+        acc.extra.setdefault("timed_out_cases", []).append(canon(case)[:600])
         acc.extra["watchdog_expiries"] = acc.extra.get("watchdog_expiries", 0) + 1
         if acc.extra["watchdog_expiries"] >= 3:
+            acc.harness_errors.append(("watchdog (third expiry in this worker)", canon(case)[:3000]))
             raise _Abort()
         return None
     except Exception:
